@@ -2,47 +2,97 @@
 (* T-specification for C12.  One event per operation of a real history executed in a fresh  *)
 (* process (harness/drivers/c12.py).  The composition of a loaded theory -- which items of   *)
 (* which files, in which order, up to which limit -- is decided HERE from the import graph   *)
-(* and item tables generated from the library files (spec/gen/C12_Items.tla).               *)
-(*   LoadSucceeds        a load with a valid limit over an acyclic library returns            *)
-(*   MissingLimitIsError a limit that names no item of the theory is an error                 *)
-(*   CycleIsError        a theory on an import cycle is an error                               *)
+(* and item tables generated from the library files (C12_Items.tla) and from the log `fs` of *)
+(* the file operations the history performed on its scratch copy of the library:             *)
+(*   <<"create", new, copied, 0, imports>>   new file = alias of the CURRENT items of `copied` *)
+(*   <<"remove", f, "", 0, <<>>>>                                                             *)
+(*   <<"ins", f, c, pos, <<>>>>              constant item c inserted in front of index pos (0-based) *)
+(*   <<"del", f, "", pos, <<>>>>             item at index pos deleted                         *)
+(*   <<"reimport", f, "", 0, imports>>       f has another import list                         *)
+(* Clauses:                                                                                  *)
+(*   LoadSucceeds        a load with a valid limit over a well-formed library returns          *)
+(*   MissingLimitIsError a limit that names no item of the CURRENT file is an error            *)
+(*   CycleIsError        a theory that reaches an import cycle is an error                     *)
+(*   MissingFileIsError  a theory whose file, or the file of one of its transitive imports,    *)
+(*                       does not exist (never created / removed) is an error, not a result    *)
+(*                       put together from what the process remembers                          *)
 (*   ReturnsExpected     the names of installed types / constants / theorems are exactly those *)
-(*                       of the transitive imports followed by the own items before the limit  *)
-(*                       (plus constants appended to files by earlier `touch` operations)      *)
+(*                       of the transitive imports (per the current files) followed by the own *)
+(*                       items before the limit (limit = the item of that identity)            *)
 (*   SameAsFresh         the full projection (types, constant types, theorem statements,       *)
 (*                       attributes, overloads) equals that of the canonical fresh process     *)
 EXTENDS C12_Items, TraceLib, FiniteSets
-\* the import list of a file: the last one written by a `reimport` edit of the history, otherwise the library's
-ImportsOf(n, re) == LET K == { k \in 1..Len(re) : re[k][1] = n } IN
-                    IF K = {} THEN cImports[n] ELSE re[CHOOSE k \in K : \A j \in K : j <= k][2]
-RECURSIVE DepOrder(_, _, _)
-DepOrder(names, acc, re) ==
-  IF names = <<>> THEN acc
-  ELSE LET n == Head(names)
-           acc1 == IF \E i \in 1..Len(acc) : acc[i] = n THEN acc ELSE Append(DepOrder(ImportsOf(n, re), acc, re), n)
-       IN DepOrder(Tail(names), acc1, re)
 RangeS(s) == { s[i] : i \in 1..Len(s) }
 NoLimit == <<"none", "none">>
 StartLimit == <<"start", "start">>
-LimitIdx(th, lim) == LET I == { i \in 1..Len(cItems[th]) : cItems[th][i][1] = lim[1] /\ cItems[th][i][2] = lim[2] } IN
-                     IF I = {} THEN 0 ELSE CHOOSE i \in I : \A k \in I : i <= k
-OwnCount(th, lim) == IF lim = NoLimit THEN Len(cItems[th]) ELSE IF lim = StartLimit THEN 0 ELSE LimitIdx(th, lim) - 1
-ValidLimit(th, lim) == lim = NoLimit \/ lim = StartLimit \/ LimitIdx(th, lim) > 0
-ExtNames(th, n) == UNION { { <<x[1], x[2]>> : x \in { y \in RangeS(cItems[th][i][4]) : y[1] \in {0, 1, 2} } } : i \in 1..n }
-Known(th) == th \in DOMAIN cItems
-ExpectedNames(th, lim, edits, re) ==
-  LET deps == RangeS(DepOrder(ImportsOf(th, re), <<>>, re)) IN
-  cBase \cup UNION { ExtNames(d, Len(cItems[d])) : d \in deps } \cup ExtNames(th, OwnCount(th, lim))
-        \cup { <<1, edits[k][2]>> : k \in { k \in 1..Len(edits) : edits[k][1] \in deps \/ (edits[k][1] = th /\ lim = NoLimit) } }
+\* ---------------------------------------------------------------- the library after a sequence of file operations
+NewItem(c) == <<"def.ax", c, TRUE, << <<1, c>> >> >>
+Clamp(p, n) == IF p < 0 THEN 0 ELSE IF p > n THEN n ELSE p
+InsertAt(s, p, x) == LET q == Clamp(p, Len(s)) IN SubSeq(s, 1, q) \o <<x>> \o SubSeq(s, q + 1, Len(s))
+RemoveAt(s, p) == IF p < 0 \/ p >= Len(s) THEN s ELSE SubSeq(s, 1, p) \o SubSeq(s, p + 2, Len(s))
+\* ex: the file exists; kn: its item table is known (from the canonical process, through aliases)
+Lib0 == [n \in DOMAIN cItems |-> [ex |-> TRUE, kn |-> TRUE, items |-> cItems[n],
+                                  imports |-> IF n \in DOMAIN cImports THEN cImports[n] ELSE <<>>]]
+ApplyOp(L, o) ==
+  LET k == o[1]
+      f == o[2] IN
+  IF k = "create" THEN
+       (f :> [ex |-> TRUE, kn |-> (o[3] \in DOMAIN L /\ L[o[3]].kn /\ L[o[3]].ex),
+              items |-> IF o[3] \in DOMAIN L THEN L[o[3]].items ELSE <<>>, imports |-> o[5]]) @@ L
+  ELSE IF f \notin DOMAIN L THEN L
+  ELSE IF k = "remove" THEN [L EXCEPT ![f].ex = FALSE]
+  ELSE IF k = "ins" THEN [L EXCEPT ![f].items = InsertAt(@, o[4], NewItem(o[3]))]
+  ELSE IF k = "del" THEN [L EXCEPT ![f].items = RemoveAt(@, o[4])]
+  ELSE IF k = "reimport" THEN [L EXCEPT ![f].imports = o[5]]
+  ELSE L
+RECURSIVE FoldOps(_, _, _)
+FoldOps(L, fs, k) == IF k > Len(fs) THEN L ELSE FoldOps(ApplyOp(L, fs[k]), fs, k + 1)
+LibAt(fs) == FoldOps(Lib0, fs, 1)
+Created(fs) == { fs[k][2] : k \in { j \in 1..Len(fs) : fs[j][1] = "create" } }
+\* ---------------------------------------------------------------- import graph of the current files
+Exists(L, n) == n \in DOMAIN L /\ L[n].ex
+ImportsIn(L, n) == IF Exists(L, n) THEN RangeS(L[n].imports) ELSE {}
+RECURSIVE ReachFix(_, _)
+ReachFix(L, S) == LET S2 == S \cup UNION { ImportsIn(L, n) : n \in S } IN IF S2 = S THEN S ELSE ReachFix(L, S2)
+Below(L, n) == ReachFix(L, ImportsIn(L, n))            \* transitive imports
+Closure(L, n) == Below(L, n) \cup {n}
+\* peel off the files all of whose imports (inside C) are gone: what remains lies on or above a cycle
+RECURSIVE Peel(_, _)
+Peel(L, C) == LET R == { x \in C : ImportsIn(L, x) \cap C = {} } IN IF R = {} THEN C ELSE Peel(L, C \ R)
+Cyclic(L, n) == Peel(L, Closure(L, n)) # {}
+Missing(L, n) == \E x \in Closure(L, n) : ~Exists(L, x)
+AllKnown(L, n) == DOMAIN cItems # {} /\ \A x \in Closure(L, n) : x \in DOMAIN L => L[x].kn
+\* the whole library is well formed: no dangling import, no cycle anywhere (the loader may refuse everything otherwise)
+Sane(L) == LET E == { x \in DOMAIN L : L[x].ex } IN
+           /\ \A x \in E : ImportsIn(L, x) \subseteq E
+           /\ Peel(L, E) = {}
+\* ---------------------------------------------------------------- expected names
+LimitIdx(its, lim) == LET I == { i \in 1..Len(its) : its[i][1] = lim[1] /\ its[i][2] = lim[2] } IN
+                      IF I = {} THEN 0 ELSE CHOOSE i \in I : \A k \in I : i <= k
+OwnCount(its, lim) == IF lim = NoLimit THEN Len(its) ELSE IF lim = StartLimit THEN 0 ELSE LimitIdx(its, lim) - 1
+ValidLimit(its, lim) == lim = NoLimit \/ lim = StartLimit \/ LimitIdx(its, lim) > 0
+ExtNames(its, n) == UNION { { <<x[1], x[2]>> : x \in { y \in RangeS(its[i][4]) : y[1] \in {0, 1, 2} } } : i \in 1..n }
+AllNames(L, d) == ExtNames(L[d].items, Len(L[d].items))
+ExpectedNames(L, th, lim) ==
+  cBase \cup UNION { AllNames(L, d) : d \in Below(L, th) } \cup ExtNames(L[th].items, OwnCount(L[th].items, lim))
+\* a created file is an alias: together with a file that declares the same names the result is not decided here
+Clash(L, th, fs) == \E c \in Created(fs) \cap Closure(L, th) : \E d \in Closure(L, th) \ {c} : AllNames(L, c) \cap AllNames(L, d) # {}
 Installed(e) == { <<e.installed[k][1], e.installed[k][2]>> : k \in 1..Len(e.installed) }
-ClausesOf(e) ==
-  IF e.op # "load" \/ ~Known(e.name) THEN {}
-  ELSE IF e.cyclic THEN (IF e.outcome = "ok" THEN {"CycleIsError"} ELSE {})
-  ELSE IF ~ValidLimit(e.name, e.limit) THEN (IF e.outcome = "ok" THEN {"MissingLimitIsError"} ELSE {})
-  ELSE IF e.outcome # "ok" THEN {"LoadSucceeds"}
-  ELSE (IF Installed(e) = ExpectedNames(e.name, e.limit, e.edits, e.reimports) THEN {} ELSE {"ReturnsExpected"})
-       \cup (IF e.canon # "none" /\ e.digest # e.canon THEN {"SameAsFresh"} ELSE {})
-NontrivialOf(e) == e.op = "load" /\ Known(e.name)
-TNext == LET e == Trace[l] IN TStep(e.tid, ClausesOf(e), NontrivialOf(e), FALSE)
+\* ---------------------------------------------------------------- verdict: <<failing clauses, examined?>>
+Verdict(e) ==
+  IF e.op # "load" THEN <<{}, FALSE>>
+  ELSE LET L == LibAt(e.fs)
+           n == e.name
+           ok == e.outcome = "ok" IN
+    IF ~AllKnown(L, n) THEN <<{}, FALSE>>
+    ELSE IF Missing(L, n) THEN <<IF ok THEN {"MissingFileIsError"} ELSE {}, TRUE>>
+    ELSE IF Cyclic(L, n) THEN <<IF ok THEN {"CycleIsError"} ELSE {}, TRUE>>
+    ELSE IF ~ValidLimit(L[n].items, e.limit) THEN <<IF ok THEN {"MissingLimitIsError"} ELSE {}, TRUE>>
+    ELSE IF Clash(L, n, e.fs) THEN <<{}, FALSE>>
+    ELSE IF ~ok THEN (IF Sane(L) THEN <<{"LoadSucceeds"}, TRUE>> ELSE <<{}, FALSE>>)
+    ELSE <<(IF Installed(e) = ExpectedNames(L, n, e.limit) THEN {} ELSE {"ReturnsExpected"})
+           \cup (IF e.canon # "none" /\ e.digest # e.canon THEN {"SameAsFresh"} ELSE {}), TRUE>>
+TNext == LET e == Trace[l]
+             v == Verdict(e) IN TStep(e.tid, v[1], v[2], FALSE)
 TSpec == TInit /\ [][TNext]_l
 =============================================================================
